@@ -355,4 +355,40 @@ theorem tie_remove_dynamic_obstacle_from_lanelets (E : Env) (s : St) (o : Id) :
       · rw_discard_items E, o
         simp [discardItems_merge, unregCenter, unregShape, hkind, hi, discardDyn]
 
+/-! ### remove_obstacle / add_objects -/
+
+/-- `Scenario.remove_obstacle(obstacle)` (one obstacle object, the one stored in the scenario) is the model's `remove` -/
+theorem tie_remove_obstacle (E : Env) (s : St) (o : Id) : Gen.Scenario_remove_obstacle E s o = remove E s o := by
+  unfold Gen.Scenario_remove_obstacle remove
+  by_cases hs : o ∈ s.statics
+  · simp [hs, tie_remove_static_obstacle_from_lanelets E s o (Or.inl hs), delStatic, bind, Except.bind, pure, Except.pure]
+  · by_cases hd : o ∈ s.dynamics
+    · simp only [hs, hd, decide_true, decide_false, Bool.false_eq_true, if_true, if_false, tie_remove_dynamic_obstacle_from_lanelets,
+        bind, Except.bind, pure, Except.pure]
+      by_cases hg : E.kind o = Kind.dynSet ∨ E.lanelets = [] <;> simp [hg, hd, delDynamic]
+    · simp [hs, hd, bind, Except.bind, pure, Except.pure]
+
+/-- `Scenario.add_objects(obstacle)` for a StaticObstacle / DynamicObstacle object is the model's `add` -/
+theorem tie_add_objects_static (E : Env) (s : St) (o : Id) (hk : E.kind o = Kind.static) :
+    Gen.Scenario_add_objects_static E s o = add E s o := by
+  unfold Gen.Scenario_add_objects_static add
+  by_cases hu : o ∈ s.statics ∨ o ∈ s.dynamics ∨ o ∈ E.lanelets
+  · simp [markUsed, hu, bind, Except.bind]
+  · obtain ⟨h1, h2, h3⟩ : o ∉ s.statics ∧ o ∉ s.dynamics ∧ o ∉ E.lanelets := by simpa [not_or] using hu
+    simp only [markUsed, h1, h2, h3, or_self, if_false, hk, if_true, bind, Except.bind, putStatic]
+    have := tie_add_static_obstacle_to_lanelets E { s with statics := s.statics ++ [o] } o (s.fwd o)
+    simp only [] at this
+    rw [this]
+    unfold addToLanelets
+    simp only [hk, if_true]
+    cases addStaticReg E o (s.fwd o) s.sreg <;> simp [map_ok, map_err, Except.map, bind, Except.bind, pure, Except.pure]
+
+theorem tie_add_objects_dynamic (E : Env) (s : St) (o : Id) (hk : E.kind o ≠ Kind.static) :
+    Gen.Scenario_add_objects_dynamic E s o = add E s o := by
+  unfold Gen.Scenario_add_objects_dynamic add
+  by_cases hu : o ∈ s.statics ∨ o ∈ s.dynamics ∨ o ∈ E.lanelets
+  · simp [markUsed, hu, bind, Except.bind]
+  · obtain ⟨h1, h2, h3⟩ : o ∉ s.statics ∧ o ∉ s.dynamics ∧ o ∉ E.lanelets := by simpa [not_or] using hu
+    simp only [markUsed, h1, h2, h3, or_self, if_false, hk, bind, Except.bind, putDynamic, tie_add_dynamic_obstacle_to_lanelets E _ o hk]
+
 end CR.Assign
